@@ -34,6 +34,7 @@ class World(object):
         self.net = Net(self.sim, self.server, scenario.get('net', {}))
         self.rand = make_rng('rand', scenario.get('rand_seed', 0))
         self.calls = []
+        self.extra = []      # [(obj, attr, value)] patched for the run
 
     def api(self, name, fn, *args, **kw):
         """A public-API call made by a harness thread; logged with seqs."""
@@ -67,7 +68,7 @@ class World(object):
         gran = self.scenario.get('sched', {}).get('granularity', 'line')
         seams.instrument(granularity='instr' if gran == 'instr' else 'line')
         with seams.installed(self.sim, self.net, self.rand,
-                             extra=self.scenario.get('_extra')) as simos:
+                             extra=self.extra) as simos:
             self.simos = simos
             build(self)
             self.sim.run(wall_timeout)
